@@ -126,3 +126,58 @@ Print Assumptions C05_chain_set.
 Print Assumptions C05_cmd_on_chain.
 Print Assumptions C05_chain_observed.
 Print Assumptions C05_chain_nonvacuous.
+
+(* ---- forests: ANY set of simultaneously held views obtained from one another, mutated in ANY order ----
+   vs tracks one value per held view.  AllGood H s vs: every held view represents its tracked value (so it has
+   that value's root and encoding, C05_forest_observed).  Valid s vs u: every hook from u up to its top-level
+   view is valid now (no slot popped away, no union switched on the way).  The five theorems below say that
+   constructing a view, obtaining child views / union values / copies and mutating through ANY usable view keep
+   AllGood, the tracked values evolving exactly as specified: the command's effect at the written view, the
+   nested slot replaced in each of its ancestors (track_mut), nothing else changed. *)
+Theorem C05_forest_init : forall H t v n, wf_ty t = true -> wf t v = true -> ModelViews.mk H t v = Ok n ->
+  AllGood H [{| cty := t; cback := n; chook := HNone |}] [v] /\ Valid [{| cty := t; cback := n; chook := HNone |}] [v] 0%nat.
+Proof. intros H. exact (forest_init H (fun _ => None)). Qed.
+
+Theorem C05_forest_get : forall H src s vs p pc i e old, AllGood H s vs -> Valid s vs p -> nth_error s p = Some pc ->
+  elem_at (cty pc) (nth p vs dv) i = Some (e, old) -> hooked e = true ->
+  exists m, let s' := s ++ [{| cty := e; cback := m; chook := HElem p i |}] in
+    run_cmd H src s (CGet p (Z.of_N i)) = (Ok tt, s') /\
+    AllGood H s' (vs ++ [old]) /\ Valid s' (vs ++ [old]) (length s) /\ (forall u, Valid s vs u -> Valid s' (vs ++ [old]) u).
+Proof. exact forest_get. Qed.
+
+Theorem C05_forest_value : forall H src s vs p pc o old, AllGood H s vs -> Valid s vs p -> nth_error s p = Some pc ->
+  uelem (cty pc) (nth p vs dv) = Some (o, old) -> hooked o = true ->
+  exists m, let s' := s ++ [{| cty := o; cback := m; chook := HUnionValue p |}] in
+    run_cmd H src s (CValue p) = (Ok tt, s') /\
+    AllGood H s' (vs ++ [old]) /\ Valid s' (vs ++ [old]) (length s) /\ (forall u, Valid s vs u -> Valid s' (vs ++ [old]) u).
+Proof. exact forest_value. Qed.
+
+Theorem C05_forest_mutation : forall H src s vs cm, AllGood H s vs -> Valid s vs (target cm) -> mutating cm = true ->
+  (exists e, run_cmd H src s cm = (Err e, s)) \/
+  (exists x s', cmd_effect (cty_at s (target cm)) (nth (target cm) vs dv) cm = Some x /\ run_cmd H src s cm = (Ok tt, s') /\
+     same_shape s s' /\ AllGood H s' (track_mut s vs cm x)).
+Proof. exact forest_mut. Qed.
+
+(* assignment, append and bit assignment shrink nothing: every view that was usable stays usable, so histories
+   of such commands through any of the held views never leave the premise of C05_forest_mutation (after a pop
+   or a union change, the views obtained from the removed slot / the old option are the ones that may not) *)
+Theorem C05_forest_keeps_valid : forall H src s vs cm x s', AllGood H s vs -> Valid s vs (target cm) -> mutating cm = true ->
+  shrinking cm = false -> run_cmd H src s cm = (Ok tt, s') ->
+  cmd_effect (cty_at s (target cm)) (nth (target cm) vs dv) cm = Some x ->
+  forall u, Valid s vs u -> Valid s' (track_mut s vs cm x) u.
+Proof. exact forest_mut_keeps_valid. Qed.
+
+Theorem C05_forest_observed : forall H src s vs, AllGood H s vs -> forall u c, nth_error s u = Some c ->
+  root H (cback c) = htr H (cty c) (nth u vs dv) /\ ser_ok H src (cty c) (nth u vs dv) (cback c).
+Proof. exact allgood_observed. Qed.
+
+Theorem C05_forest_nonvacuous : forall H, exists s vs, AllGood H s vs /\ length s = 3%nat /\ Valid s vs 1%nat /\ Valid s vs 2%nat.
+Proof. intros H. exact (forest_exists H (fun _ => None)). Qed.
+
+Print Assumptions C05_forest_init.
+Print Assumptions C05_forest_get.
+Print Assumptions C05_forest_value.
+Print Assumptions C05_forest_mutation.
+Print Assumptions C05_forest_keeps_valid.
+Print Assumptions C05_forest_observed.
+Print Assumptions C05_forest_nonvacuous.
